@@ -1310,7 +1310,9 @@ func dstOfRoute(c *cmd) routeDst {
 		// ASA: ipv6 route intf ip/len gw
 		// IOS: ipv6 route [vrf NAME] ip/len gw
 		i := slices.IndexFunc(l, func(e string) bool { return strings.Contains(e, "/") })
-		ipp, _ = netip.ParsePrefix(l[i])
+		if i >= 0 {
+			ipp, _ = netip.ParsePrefix(l[i])
+		}
 		if len(l) >= 6 && l[2] == "vrf" {
 			vrf = l[3]
 		}
